@@ -97,6 +97,10 @@ Definition step_scope (t : topology key) (ia i : N) (p : path) : bool :=
          end
   | _ => true
   end.
+(** class of the open finding C01-peer-mac-over-beta-i: the segment carries peer entries (only
+    their MACs deviate from the specification in code-built segments) *)
+Definition has_peer_entries (us : list (@uentry key)) : bool :=
+  existsb (fun u => match ue_peers u with [] => false | _ => true end) us.
 End Scope.
 
 (** ** Joinability (C01, last sentence): segments as AS sequences in construction order.
